@@ -23,13 +23,13 @@ const sigDirectAtScheduled = "C07:waiting-task-started-directly-at-scheduled-tim
 type mtask struct {
 	promInFlight   bool    // the schedule handler saw the scheduled time come and has not yet called StartASAP
 	promCarry      []int64 // the scheduled times that promotion stands for
-	inert          bool  // created on a nil module: born cancelled, no max delay
-	maxDelayZero   bool  // last MaxDelay call set 0 (own books, not the implementation's snapshot)
-	execNo         int   // number of starts seen
-	inExec         bool  // between a start and the end of its deferred section
-	lastSubExec    int   // execution during which the last submission was made, -1 if none was in progress
-	lastSkipExecNo int   // execution during which the last skip-executing happened, -1
-	cancelIdx      int // index of the first cancel event, -1
+	inert          bool    // created on a nil module: born cancelled, no max delay
+	maxDelayZero   bool    // last MaxDelay call set 0 (own books, not the implementation's snapshot)
+	execNo         int     // number of starts seen
+	inExec         bool    // between a start and the end of its deferred section
+	lastSubExec    int     // execution during which the last submission was made, -1 if none was in progress
+	lastSkipExecNo int     // execution during which the last skip-executing happened, -1
+	cancelIdx      int     // index of the first cancel event, -1
 	cancelWaiting  bool
 	subs, starts   int
 	lastSubIdx     int
@@ -60,12 +60,6 @@ type directPick struct {
 	userEA    int64
 	expired   bool // the max delay of the task's last queueing call had expired (2 ms tolerance)
 	scheduled bool // a time given to Schedule (after that queueing call) had come
-}
-
-type anyRun struct {
-	t     int
-	ended bool
-	start int64
 }
 
 type qhRun struct {
@@ -100,7 +94,6 @@ func monitor(c hxlib.Case, outs []string) (vs []hxlib.Violation) {
 	execWait := int64(60_000_000_000)
 	defMaxDelay := int64(60_000_000_000)
 	var lastClock int64 // latest reading of the harness clock seen in the log (lower bound for every later section)
-	var runs []*anyRun  // every execution started so far (by either handler)
 	// order books
 	stamp := 0
 	waitA, waitP, waitN := map[int]int{}, map[int]int{}, map[int]int{}
@@ -403,9 +396,11 @@ func monitor(c hxlib.Case, outs []string) (vs []hxlib.Violation) {
 					// "Queued tasks are started one after the other (the next one only after the previous returned, was
 					// cancelled or exceeded the execution-wait limit)". A start by the schedule handler bypasses the queue;
 					// it is read as the documented exception only if the max delay of the task's last queueing call has
-					// expired. Otherwise the task is a waiting task started out of turn, and the clause applies to it.
-					for _, q := range runs {
-						if q.ended || q.t == k || ts[q.t].cancelIdx >= 0 || now-q.start >= execWait {
+					// expired. Otherwise the task is a waiting task started out of turn, and the clause applies to it: the
+					// tasks started through the queue before it (exempted direct starts are not links of that chain) must
+					// have returned, been cancelled or exceeded the execution-wait limit.
+					for _, q := range qhRuns {
+						if q.ended || q.t == k || ts[q.t].cancelIdx >= 0 || now-q.startNow >= execWait {
 							continue
 						}
 						dl := "it has no max delay on the books (no queueing call with a max delay since it last left the schedule)"
@@ -413,16 +408,15 @@ func monitor(c hxlib.Case, outs []string) (vs []hxlib.Violation) {
 							dl = fmt.Sprintf("the max delay of its last queueing call cannot expire before %d", dp.deadline)
 						}
 						if dp.scheduled {
-							add(sigDirectAtScheduled, fmt.Sprintf("task %d, waiting for its turn, was taken out of the schedule at %d (event %d) and started directly by the schedule handler at %d because a time given to Schedule (%d) had come, while task %d (started before) still runs, is not cancelled and is within the execution-wait limit; %s",
+							add(sigDirectAtScheduled, fmt.Sprintf("task %d, waiting for its turn, was taken out of the schedule at %d (event %d) and started directly by the schedule handler at %d because a time given to Schedule (%d) had come, while task %d (started through the queue before) still runs, is not cancelled and is within the execution-wait limit; %s",
 								k, dp.now, dp.line, now, dp.userEA, q.t, dl), i)
 						} else {
-							add("C07:waiting-task-started-directly-before-max-delay", fmt.Sprintf("task %d, waiting for its turn, was taken out of the schedule at %d (event %d) and started directly by the schedule handler at %d, while task %d (started before) still runs, is not cancelled and is within the execution-wait limit; %s; no time given to Schedule had come either (last: %d)",
+							add("C07:waiting-task-started-directly-before-max-delay", fmt.Sprintf("task %d, waiting for its turn, was taken out of the schedule at %d (event %d) and started directly by the schedule handler at %d, while task %d (started through the queue before) still runs, is not cancelled and is within the execution-wait limit; %s; no time given to Schedule had come either (last: %d)",
 								k, dp.now, dp.line, now, q.t, dl, dp.userEA), i)
 						}
 						break
 					}
 				}
-				runs = append(runs, &anyRun{t: k, start: now})
 				if f[3] == "qh" {
 					qhRuns = append(qhRuns, &qhRun{t: k, startNow: now})
 				}
@@ -459,11 +453,6 @@ func monitor(c hxlib.Case, outs []string) (vs []hxlib.Violation) {
 			for j := len(qhRuns) - 1; j >= 0; j-- {
 				if qhRuns[j].t == k && !qhRuns[j].ended {
 					qhRuns[j].ended = true
-				}
-			}
-			for _, q := range runs {
-				if q.t == k {
-					q.ended = true
 				}
 			}
 		}
